@@ -81,6 +81,7 @@ Section NoHalt.
   Variables V V' : world -> store.
   Variables tag tag' : fstag.
   Variables rh rh' wh wh' : fhandle -> str -> nat -> Prop.
+  Variables hid hid' anc anc' : str -> Prop.
   Hypothesis HFa : fault_laws a V tag rh wh.
   Hypothesis HFa' : fault_laws a' V' tag' rh' wh'.
 
@@ -134,8 +135,9 @@ Section FRemoval.
   Variable tn : str -> str.
   Variable acc : str -> str -> Prop.
   Variables rh wh : fhandle -> str -> nat -> Prop.
+  Variables hid anc : str -> Prop.
   Variable tag : fstag.
-  Hypothesis HLa : api_laws a V V' tn acc rh wh.
+  Hypothesis HLa : api_laws a V V' tn acc rh wh hid anc.
   Hypothesis HFa : fault_laws a V tag rh wh.
   Variable fl : list fault.
 
@@ -151,12 +153,12 @@ Section FRemoval.
   Qed.
 
   Lemma remove_stepF (s0 s' : store) (D : list str) (w w' : world) (p : str) (n : node) :
-    RInvF s0 s' D w -> p <> s_root -> snolinkpar s0 p -> V (unfault w) !! p = Some n ->
+    RInvF s0 s' D w -> p <> s_root -> snolinkpar s0 p -> V (unfault w) !! p = Some n -> ~ anc p ->
     (forall q n0, s0 !! q = Some n0 -> In p (ancestors q) -> In q D) ->
     a_remove a p w = (MOk tt, w') -> RInvF s0 s' (D ++ [p]) w'.
   Proof.
-    intros (Hc & Hf & HR) Hne Hnlp Hp Hbelow Hrun.
-    destruct (remove_step a V V' tn acc rh wh HLa s0 s' D (unfault w) p n HR Hne Hnlp Hp Hbelow) as (w2 & Hrun2 & HR2).
+    intros (Hc & Hf & HR) Hne Hnlp Hp Hnanc Hbelow Hrun.
+    destruct (remove_step a V V' tn acc rh wh hid anc HLa s0 s' D (unfault w) p n HR Hne Hnlp Hp Hbelow Hnanc) as (w2 & Hrun2 & HR2).
     pose proof HR as (Hq & _).
     assert (Hst : fstrict (eq tag) (fun _ => True) (a_remove a p) (unfault w) fl).
     { apply fstrict_call; [apply (flaw_remove _ _ _ _ _ HFa) | exact Hq | exact I]. }
@@ -166,15 +168,15 @@ Section FRemoval.
   Qed.
 
   Lemma try_rm_stepF (s0 s' : store) (D : list str) (w w' : world) (p : str) :
-    RInvF s0 s' D w -> p <> s_root -> snolinkpar s0 p ->
+    RInvF s0 s' D w -> p <> s_root -> snolinkpar s0 p -> ~ anc p ->
     (forall q n0, s0 !! q = Some n0 -> In p (ancestors q) -> In q D) ->
     try_rm a p w = (MOk tt, w') -> RInvF s0 s' (D ++ [p]) w'.
   Proof.
-    intros (Hc & Hf & HR) Hne Hnlp Hbelow Hrun.
-    destruct (try_rm_step a V V' tn acc rh wh HLa s0 s' D (unfault w) p HR Hne Hnlp Hbelow) as (w2 & Hrun2 & HR2).
+    intros (Hc & Hf & HR) Hne Hnlp Hnanc Hbelow Hrun.
+    destruct (try_rm_step a V V' tn acc rh wh hid anc HLa s0 s' D (unfault w) p HR Hne Hnlp Hbelow Hnanc) as (w2 & Hrun2 & HR2).
     pose proof HR as (Hq & Hwf & _).
     pose proof (RInv_snolinkpar V V' s0 s' D (unfault w) p HR Hnlp) as Hnlp'.
-    destruct (lexists_spec a V V' tn acc rh wh HLa (unfault w) p Hq Hwf Hnlp') as (w1 & Hrun1 & HV1 & Hsr1).
+    destruct (lexists_spec a V V' tn acc rh wh hid anc HLa (unfault w) p Hq Hwf Hnlp') as (w1 & Hrun1 & HV1 & Hsr1).
     assert (Hst : fstrict (eq tag) (fun _ => True) (try_rm a p) (unfault w) fl).
     { unfold try_rm. eapply fstrict_bind_ok; [exact Hrun1 | |].
       - apply lexists_strict; [apply (flaw_lstat _ _ _ _ _ HFa) | exact Hq | exact I].
@@ -198,9 +200,10 @@ Section FRemoval.
     (forall p, In p l -> p <> s_root /\ snolinkpar s0 p /\ s0 !! p <> None /\ ~ In p D0) ->
     (forall done p todo q n0, l = done ++ p :: todo -> s0 !! q = Some n0 ->
        In p (ancestors q) -> In q (D0 ++ done)) ->
+    (forall p, In p l -> ~ anc p) ->
     collect_errs (fun p => a_remove a p) l w = (MOk [], w') -> RInvF s0 s' (D0 ++ l) w'.
   Proof.
-    intros HR Hnd Hl Hord Hrun.
+    intros HR Hnd Hl Hord Hna Hrun.
     apply (collect_errs_nilF (fun p => a_remove a p) (fun done wx => RInvF s0 s' (D0 ++ done) wx) l
              nohalt_remove) with (todo := l) (done := []) (w := w); [| reflexivity | rewrite app_nil_r; exact HR | exact (proj1 HR) | exact Hrun].
     intros done p todo w1 w2 El HR1 _ Hrun1.
@@ -214,7 +217,7 @@ Section FRemoval.
       destruct (s0 !! p) as [n0|] eqn:Hs0; [| contradiction Hex; reflexivity].
       apply sonode_eqv_some_r in He. destruct He as (n' & Hn' & _). exists n'. exact Hn'. }
     destruct Hp as (n & Hp). rewrite app_assoc.
-    apply (remove_stepF s0 s' (D0 ++ done) w1 w2 p n HR1 Hne Hnlp Hp); [| exact Hrun1].
+    apply (remove_stepF s0 s' (D0 ++ done) w1 w2 p n HR1 Hne Hnlp Hp (Hna p Hin)); [| exact Hrun1].
     intros q n0 Hq Hanc. exact (Hord done p todo q n0 El Hq Hanc).
   Qed.
 
@@ -223,15 +226,16 @@ Section FRemoval.
     (forall p, In p l -> p <> s_root /\ snolinkpar s0 p) ->
     (forall done p todo q n0, l = done ++ p :: todo -> s0 !! q = Some n0 ->
        In p (ancestors q) -> In q (D0 ++ done)) ->
+    (forall p, In p l -> ~ anc p) ->
     collect_errs (try_rm a) l w = (MOk [], w') -> RInvF s0 s' (D0 ++ l) w'.
   Proof.
-    intros HR Hl Hord Hrun.
+    intros HR Hl Hord Hna Hrun.
     apply (collect_errs_nilF (try_rm a) (fun done wx => RInvF s0 s' (D0 ++ done) wx) l
              nohalt_try_rm) with (todo := l) (done := []) (w := w); [| reflexivity | rewrite app_nil_r; exact HR | exact (proj1 HR) | exact Hrun].
     intros done p todo w1 w2 El HR1 _ Hrun1.
     assert (Hin : In p l) by (rewrite El; apply in_or_app; right; left; reflexivity).
     destruct (Hl p Hin) as (Hne & Hnlp). rewrite app_assoc.
-    apply (try_rm_stepF s0 s' (D0 ++ done) w1 w2 p HR1 Hne Hnlp); [| exact Hrun1].
+    apply (try_rm_stepF s0 s' (D0 ++ done) w1 w2 p HR1 Hne Hnlp (Hna p Hin)); [| exact Hrun1].
     intros q n0 Hq Hanc. exact (Hord done p todo q n0 El Hq Hanc).
   Qed.
 End FRemoval.
@@ -245,15 +249,17 @@ Section FRollback.
   Variables tnb tnk : str -> str.
   Variables accb acck : str -> str -> Prop.
   Variables rhb rhk whb whk : fhandle -> str -> nat -> Prop.
+  Variables hid anc : str -> Prop.
   Variable B0 : store.
   Variables tagb tagk : fstag.
-  Hypothesis HLb : api_laws base Vb Vk tnb accb rhb whb.
-  Hypothesis HLk : api_laws backup Vk Vb tnk acck rhk whk.
+  Hypothesis HLb : api_laws base Vb Vk tnb accb rhb whb hid anc.
+  Hypothesis HLk : api_laws backup Vk Vb tnk acck rhk whk nohid nohid.
   Hypothesis HFb : fault_laws base Vb tagb rhb whb.
   Hypothesis HFk : fault_laws backup Vk tagk rhk whk.
   Hypothesis Hlinks : links_ok tnb tnk accb acck B0.
   Hypothesis Hsmall : all_small B0.
   Hypothesis HwfB : swf B0.
+  Hypothesis Hloc : loc_ok hid anc B0.
 
   Variable fl : list fault.
 
@@ -326,7 +332,7 @@ Section FRollback.
       copy_dir base p fi w = (MOk tt, w') -> ProgF (R ++ [p]) w'.
     Proof.
       intros (Hc & Hf & HP) Hi Hne Hk Hnin Hanc Hrun.
-      destruct (dir_step base Vb Vk tnb accb rhb whb B0 HLb HwfB w0 Hinv s1 Hs1_keep
+      destruct (dir_step base Vb Vk tnb accb rhb whb hid anc B0 HLb HwfB Hloc w0 Hinv s1 Hs1_keep
                   R (unfault w) p fi HP Hi Hne Hk Hnin Hanc) as (w2 & Hrun2 & HP2).
       destruct (some_orig Vb Vk B0 w0 Hinv p fi Hi) as (n0 & Hn0 & Him).
       pose proof (prog_sdirect Vb Vk B0 HwfB w0 Hinv s1 R (unfault w) p fi HP Hi Hanc) as Hdir.
@@ -337,8 +343,9 @@ Section FRollback.
         pose proof (prog_kind Vb Vk B0 w0 Hinv s1 Hs1_keep R (unfault w) p fi n HP Hnin Hi Hp) as Hkn. rewrite Hk in Hkn.
         destruct n as [m | m c | m t]; simpl in Hkn; try discriminate Hkn.
         exists m. exact Hp. }
-      pose proof (copy_dir_strict base Vb Vk tnb accb rhb whb tagb HLb HFb fl (fun _ => True) (unfault w) p fi
-                    Hq Hwf Hdir Hne Hk Hu Hg Hcase I (fun _ => I)) as Hst.
+      pose proof (copy_dir_strict base Vb Vk tnb accb rhb whb hid anc tagb HLb HFb fl (fun _ => True) (unfault w) p fi
+                    Hq Hwf Hdir Hne Hk Hu Hg Hcase I (fun _ => I)
+                    (orig_not_hid hid anc B0 Hloc p n0 Hn0)) as Hst.
       destruct (strict_ok _ _ _ _ _ tt w' Hst ltac:(rewrite (lw_of w Hf); exact Hrun)) as (w3 & Hq3 & _ & -> & _).
       rewrite Hrun2 in Hq3. injection Hq3 as <-. exact (ProgF_lift _ w2 HP2).
     Qed.
@@ -350,7 +357,7 @@ Section FRollback.
       restore_file base backup p fi w = (MOk tt, w') -> ProgF (R ++ [p]) w'.
     Proof.
       intros (Hc & Hf & HP) Hi Hne Hk Hnin Hanc Hrun.
-      destruct (file_step base backup Vb Vk tnb tnk accb acck rhb rhk whb whk B0 HLb HLk Hsmall HwfB
+      destruct (file_step base backup Vb Vk tnb tnk accb acck rhb rhk whb whk hid anc B0 HLb HLk Hsmall HwfB Hloc
                   w0 Hinv s1 Hs1_keep R (unfault w) p fi HP Hi Hne Hk Hnin Hanc) as (wd & Hrund & HPd).
       set (wq := unfault w) in *.
       destruct (backup_node Vb Vk B0 w0 Hinv p fi Hi Hne) as (n0 & nk & Hn0 & Him & Hnk & Hcopy).
@@ -366,12 +373,12 @@ Section FRollback.
       assert (Hwfk : swf (Vk wq)) by (rewrite HVk; exact Hwfk0).
       assert (Hpk : Vk wq !! p = Some (File m0 c0)) by (rewrite HVk; exact Hnk).
       assert (Hnlpk : snolinkpar (Vk wq) p) by (rewrite HVk; exact Hnlpk0).
-      destruct (law_open_file _ _ _ _ _ _ _ HLk wq p m0 c0 Hq Hwfk Hnlpk Hpk)
+      destruct (law_open_file _ _ _ _ _ _ _ _ _ HLk wq p m0 c0 Hq Hwfk Hnlpk Hpk)
         as (h & (wa & Hopen & HVka & Hsra) & Hrh).
       pose proof (quiet_same_rest Vb wq wa Hq Hsra) as Hqa.
       pose proof (Prog_read Vb Vk B0 w0 s1 R wq wa HP Hqa (proj1 Hsra) HVka) as HPa.
       assert (Hpka : Vk wa !! p = Some (File m0 c0)) by (rewrite HVka; exact Hpk).
-      destruct (law_hstat _ _ _ _ _ _ _ HLk wa h p 0%nat (File m0 c0) Hqa Hrh Hpka)
+      destruct (law_hstat _ _ _ _ _ _ _ _ _ HLk wa h p 0%nat (File m0 c0) Hqa Hrh Hpka)
         as (fi2 & (wb & Hstat & HVkb & Hsrb) & Him2).
       pose proof (quiet_same_rest Vb wa wb Hqa Hsrb) as Hqb.
       pose proof (Prog_read Vb Vk B0 w0 s1 R wa wb HPa Hqb (proj1 Hsrb) HVkb) as HPb.
@@ -385,11 +392,12 @@ Section FRollback.
         pose proof (prog_kind Vb Vk B0 w0 Hinv s1 Hs1_keep R wb p fi n HPb Hnin Hi Hp) as Hkn. rewrite Hk in Hkn.
         destruct n as [m | m c | m t]; simpl in Hkn; try discriminate Hkn.
         exists m, c. reflexivity. }
-      destruct (copy_file_spec base backup Vb Vk tnb tnk accb acck rhb rhk whb whk HLb HLk
-                  wb p fi h p m0 c0 Hqb Hwfb Hwfkb Hdir Hk Hu Hg Hcase Hrh Hpkb (Hsmall p m0 c0 Hn0))
+      destruct (copy_file_spec base backup Vb Vk tnb tnk accb acck rhb rhk whb whk hid nohid anc nohid HLb HLk
+                  wb p fi h p m0 c0 Hqb Hwfb Hwfkb Hdir Hk Hu Hg Hcase Hrh Hpkb (Hsmall p m0 c0 Hn0)
+                  (orig_not_hid hid anc B0 Hloc p _ Hn0))
         as (wc & m' & Hcp & (Hsrc & Hwfc & Heqvc) & Hpc & Hmeta & Hmt).
       pose proof (quiet_same_rest Vk wb wc Hqb Hsrc) as Hqc.
-      destruct (law_hclose_r _ _ _ _ _ _ _ HLk wc h p 0%nat Hqc Hrh) as (wd' & Hclose & HVkd & Hsrd).
+      destruct (law_hclose_r _ _ _ _ _ _ _ _ _ HLk wc h p 0%nat Hqc Hrh) as (wd' & Hclose & HVkd & Hsrd).
       (* the run without plan ends in [wd'] *)
       assert (Ewd : wd' = wd).
       { assert (E : restore_file base backup p fi wq = (MOk tt, wd')).
@@ -421,9 +429,9 @@ Section FRollback.
       rewrite Hk2 in Hrun. rewrite (bind_ok _ _ (set_faults wb fl) (set_faults wb fl) (Ok tt) eq_refl) in Hrun.
       cbv beta iota in Hrun.
       destruct (fstrict_cases _ _ _ _ _
-                  (copy_file_strict base backup Vb Vk tnb tnk accb acck rhb rhk whb whk tagb HLb HLk HFb fl
+                  (copy_file_strict base backup Vb Vk tnb tnk accb acck rhb rhk whb whk hid nohid anc nohid tagb HLb HLk HFb fl
                      (fun _ => True) wb p fi h p m0 c0 Hqb Hwfb Hwfkb Hdir Hk Hu Hg Hcase Hrh Hpkb
-                     (Hsmall p m0 c0 Hn0) I (fun _ _ _ => I)))
+                     (Hsmall p m0 c0 Hn0) I (fun _ _ _ => I) (orig_not_hid hid anc B0 Hloc p _ Hn0)))
         as [Hc3 | (e & wx & Hrunf & _ & Hcx & _)].
       2:{ rewrite (bind_ok _ _ _ _ (Err e) (try_err _ _ _ e Hrunf)) in Hrun.
           destruct (try_hclose_any h wx Hcx) as (y & wy & Hcl & _).
@@ -447,7 +455,7 @@ Section FRollback.
       restore_symlink base backup p fi w = (MOk tt, w') -> ProgF (R ++ [p]) w'.
     Proof.
       intros (Hc & Hf & HP) Hi Hne Hk Hnin Hanc Hrun.
-      destruct (link_step base backup Vb Vk tnb tnk accb acck rhb rhk whb whk B0 HLb HLk Hlinks HwfB
+      destruct (link_step base backup Vb Vk tnb tnk accb acck rhb rhk whb whk hid anc B0 HLb HLk Hlinks HwfB Hloc
                   w0 Hinv s1 Hs1_keep R (unfault w) p fi HP Hi Hne Hk Hnin Hanc) as (wd & Hrund & HPd).
       set (wq := unfault w) in *.
       destruct (backup_node Vb Vk B0 w0 Hinv p fi Hi Hne) as (n0 & nk & Hn0 & Him & Hnk & Hcopy).
@@ -463,14 +471,14 @@ Section FRollback.
       pose proof (swf_lookup_snolinkpar _ _ _ Hwfk0 Hnk) as Hnlpk0.
       assert (Hwfk : swf (Vk wq)) by (rewrite HVk; exact Hwfk0).
       assert (Hnlpk : snolinkpar (Vk wq) p) by (rewrite HVk; exact Hnlpk0).
-      destruct (lexists_spec backup Vk Vb tnk acck rhk whk HLk wq p Hq Hwfk Hnlpk)
+      destruct (lexists_spec backup Vk Vb tnk acck rhk whk nohid nohid HLk wq p Hq Hwfk Hnlpk)
         as (wa & Hex1 & HVka & Hsra).
       rewrite HVk, Hnk in Hex1.
       pose proof (quiet_same_rest Vb wq wa Hq Hsra) as Hqa.
       pose proof (Prog_read Vb Vk B0 w0 s1 R wq wa HP Hqa (proj1 Hsra) HVka) as HPa.
       pose proof (prog_sdirect Vb Vk B0 HwfB w0 Hinv s1 R wa p fi HPa Hi Hanc) as Hdira.
       pose proof HPa as (_ & Hwfa & HVka0 & _ & _).
-      destruct (lexists_spec base Vb Vk tnb accb rhb whb HLb wa p Hqa Hwfa (sdirect_snolinkpar _ _ Hdira))
+      destruct (lexists_spec base Vb Vk tnb accb rhb whb hid anc HLb wa p Hqa Hwfa (sdirect_snolinkpar _ _ Hdira))
         as (wb & Hex2 & HVb & Hsrb).
       pose proof (quiet_same_rest Vk wa wb Hqa Hsrb) as Hqb.
       pose proof (Prog_read Vb Vk B0 w0 s1 R wa wb HPa Hqb HVb (proj1 Hsrb)) as HPb.
@@ -484,7 +492,7 @@ Section FRollback.
       { rewrite <- HVb. destruct (Vb wb !! p) as [n|] eqn:Hp.
         - pose proof (prog_kind Vb Vk B0 w0 Hinv s1 Hs1_keep R wb p fi n HPb Hnin Hi Hp) as Hkn.
           assert (Hnd : node_kind n <> KDir) by (rewrite Hkn, Hk; discriminate).
-          destruct (law_removeall_leaf _ _ _ _ _ _ _ HLb wb p n Hqb Hwfb
+          destruct (law_removeall_leaf _ _ _ _ _ _ _ _ _ HLb wb p n Hqb Hwfb
                       (sdirect_snolinkpar _ _ Hdirb) Hp Hnd Hne)
             as (s2 & (wc & Hrunc & HVc & Hsrc) & Hnone & Heqv & Hwfc).
           subst s2. exists wc. split; [exact Hrunc |].
@@ -510,9 +518,10 @@ Section FRollback.
         cbv beta.
         eapply fstrict_bind_ok; [exact Hrmrun | |].
         { apply fstrict_if_call; [apply (fcall_any_tag tagb); apply (flaw_removeall _ _ _ _ _ HFb) | exact Hqb | exact I]. }
-        eapply fstrict_mono; [| exact (copy_symlink_strict base backup Vb Vk tnb tnk accb acck rhb rhk whb whk tagb tagk
+        eapply fstrict_mono; [| exact (copy_symlink_strict base backup Vb Vk tnb tnk accb acck rhb rhk whb whk hid nohid anc nohid tagb tagk
                                          HLb HLk HFb HFk fl (fun _ => True) wc p fi mk t0 Hqc Hwfc Hwfkc Hnlpkc Hpkc
-                                         Hdirc Hpc Hk Htne Haccb I (fun _ => I))].
+                                         Hdirc Hpc Hk Htne Haccb I (fun _ => I)
+                                         (orig_not_hid hid anc B0 Hloc p _ Hn0))].
         intros x _. exact I. }
       destruct (strict_ok _ _ _ _ _ tt w' Hst ltac:(unfold wq; rewrite (lw_of w Hf); exact Hrun)) as (w3 & Hq3 & _ & -> & _).
       fold wq in Hrund. rewrite Hrund in Hq3. injection Hq3 as <-. exact (ProgF_lift _ wd HPd).
@@ -643,7 +652,7 @@ Section FRollback.
       assert (Hwf : swf (Vb wq)) by (rewrite HVq; exact (inv_wf_b Vb Vk B0 w0 Hinv)).
       assert (Hnlp : snolinkpar (Vb wq) p).
       { rewrite HVq. apply (inv_nolink Vb Vk B0 w0 Hinv). unfold tracked. rewrite Hip. discriminate. }
-      destruct (lexists_spec base Vb Vk tnb accb rhb whb HLb wq p Hq Hwf Hnlp) as (w1 & Hrun1 & HV1 & Hsr1).
+      destruct (lexists_spec base Vb Vk tnb accb rhb whb hid anc HLb wq p Hq Hwf Hnlp) as (w1 & Hrun1 & HV1 & Hsr1).
       destruct (fstrict_cases _ _ _ _ _
                   (lexists_strict (eq tagb) (fun x => sim wq x) base p wq fl (flaw_lstat _ _ _ _ _ HFb p) Hq (sim_refl wq)))
         as [Hc1 | (e & wx & Hrunf & _ & Hcx & Hfx & _ & _ & _ & ws & Hsws & _ & Hsim)].
@@ -783,9 +792,9 @@ Section FRollback.
       split; [exact (quiet_unfault wc Hcc) |].
       rewrite (Vbst wc _ (sim_unfault wc)), (Vkst wc _ (sim_unfault wc)), HVc.
       split; [exact Hwfb0 | split; [exact HVkc | split; [apply store_eqv_except_refl | intros p []]]]. }
-    pose proof (remove_passF base Vb Vk tnb accb rhb whb tagb HLb HFb fl (Vb w0) (Vk w0) [] (sort_most lrm) wc w1 HR0
+    pose proof (remove_passF base Vb Vk tnb accb rhb whb hid anc tagb HLb HFb fl (Vb w0) (Vk w0) [] (sort_most lrm) wc w1 HR0
                   (isort_nodup most lrm (l_rm_nodup Vb w0)) (rm_elem Vb Vk B0 HwfB w0 Hinv)
-                  (rm_order Vb Vk B0 HwfB w0 Hinv) Hp1) as HR1F.
+                  (rm_order Vb Vk B0 HwfB w0 Hinv) (rm_not_anc Vb Vk hid anc B0 Hloc w0 Hinv) Hp1) as HR1F.
     simpl app in HR1F. destruct HR1F as (_ & _ & HR1).
     set (u1 := unfault w1) in *.
     pose proof HR1 as (Hq1 & Hwf1 & HVk1 & Heqv1 & Hnone1).
@@ -815,18 +824,20 @@ Section FRollback.
       split; [apply store_eqv_except_refl | intros p []]. }
     assert (HneL : KLink <> KDir) by discriminate.
     assert (HneF : KFile <> KDir) by discriminate.
-    pose proof (try_rm_passF backup Vk Vb tnk acck rhk whk tagk HLk HFk fl (Vk w0) (Vb (unfault w4)) [] (sort_most lls) w4 w5 HRk0
-                  (bk_elem Vb Vk B0 w0 Hinv KLink) (bk_leaf_order Vb Vk B0 w0 Hinv KLink [] HneL) Hp5) as HR5.
+    pose proof (try_rm_passF backup Vk Vb tnk acck rhk whk nohid nohid tagk HLk HFk fl (Vk w0) (Vb (unfault w4)) [] (sort_most lls) w4 w5 HRk0
+                  (bk_elem Vb Vk B0 w0 Hinv KLink) (bk_leaf_order Vb Vk B0 w0 Hinv KLink [] HneL)
+                  (fun p _ => not_nohid p) Hp5) as HR5.
     destruct HR5 as (X1 & X2 & HR5).
     apply (RInv_ext Vk Vb (Vk w0) (Vb (unfault w4)) _ lls) in HR5; [| intros x; simpl; apply isort_in].
-    pose proof (try_rm_passF backup Vk Vb tnk acck rhk whk tagk HLk HFk fl (Vk w0) (Vb (unfault w4)) lls (sort_most lfs) w5 w6
-                  (conj X1 (conj X2 HR5)) (bk_elem Vb Vk B0 w0 Hinv KFile) (bk_leaf_order Vb Vk B0 w0 Hinv KFile lls HneF) Hp6) as HR6.
+    pose proof (try_rm_passF backup Vk Vb tnk acck rhk whk nohid nohid tagk HLk HFk fl (Vk w0) (Vb (unfault w4)) lls (sort_most lfs) w5 w6
+                  (conj X1 (conj X2 HR5)) (bk_elem Vb Vk B0 w0 Hinv KFile) (bk_leaf_order Vb Vk B0 w0 Hinv KFile lls HneF)
+                  (fun p _ => not_nohid p) Hp6) as HR6.
     destruct HR6 as (Y1 & Y2 & HR6).
     apply (RInv_ext Vk Vb (Vk w0) (Vb (unfault w4)) _ (lls ++ lfs)) in HR6;
       [| intros x; rewrite !in_app_iff; unfold sort_most; rewrite isort_in; reflexivity].
-    pose proof (try_rm_passF backup Vk Vb tnk acck rhk whk tagk HLk HFk fl (Vk w0) (Vb (unfault w4)) (lls ++ lfs)
+    pose proof (try_rm_passF backup Vk Vb tnk acck rhk whk nohid nohid tagk HLk HFk fl (Vk w0) (Vb (unfault w4)) (lls ++ lfs)
                   (sort_most lds) w6 w7 (conj Y1 (conj Y2 HR6)) (bk_elem Vb Vk B0 w0 Hinv KDir)
-                  (bk_dir_order Vb Vk B0 w0 Hinv) Hp7) as HR7.
+                  (bk_dir_order Vb Vk B0 w0 Hinv) (fun p _ => not_nohid p) Hp7) as HR7.
     destruct HR7 as (_ & _ & HR7).
     pose proof HR7 as (Hq7 & _ & HVb7 & Heqv7 & Hnone7).
     subst w'.
@@ -912,6 +923,7 @@ Section SClean.
   Variables V V' : world -> store.
   Variables tag tag' : fstag.
   Variables rh rh' wh wh' : fhandle -> str -> nat -> Prop.
+  Variables hid hid' anc anc' : str -> Prop.
   Hypothesis HFa : fault_laws a V tag rh wh.
   Hypothesis HFa' : fault_laws a' V' tag' rh' wh'.
 
@@ -964,6 +976,7 @@ Section SCleanRollback.
   Variables Vb Vk : world -> store.
   Variables tagb tagk : fstag.
   Variables rhb rhk whb whk : fhandle -> str -> nat -> Prop.
+  Variables hid anc : str -> Prop.
   Hypothesis HFb : fault_laws base Vb tagb rhb whb.
   Hypothesis HFk : fault_laws backup Vk tagk rhk whk.
 
@@ -1028,50 +1041,51 @@ End SCleanRollback.
 (** * The theorems, as stated in Spec/Faults.v *)
 
 Theorem rollback_fault :
-  forall base backup Vb Vk tnb tnk accb acck rhb rhk whb whk B0 tagb tagk,
-  rollback_fault_stmt base backup Vb Vk tnb tnk accb acck rhb rhk whb whk B0 tagb tagk.
+  forall base backup Vb Vk tnb tnk accb acck rhb rhk whb whk hid anc B0 tagb tagk,
+  rollback_fault_stmt base backup Vb Vk tnb tnk accb acck rhb rhk whb whk hid anc B0 tagb tagk.
 Proof.
-  intros base backup Vb Vk tnb tnk accb acck rhb rhk whb whk B0 tagb tagk.
-  unfold rollback_fault_stmt. cbv zeta. intros HLb HLk HFb HFk Hlinks Hsmall HwfB w [Hc HI] Hsingle.
+  intros base backup Vb Vk tnb tnk accb acck rhb rhk whb whk hid anc B0 tagb tagk.
+  unfold rollback_fault_stmt. cbv zeta. intros HLb HLk HFb HFk Hlinks Hsmall HwfB Hloc w [Hc HI] Hsingle.
   destruct (b_rollback base backup w) as [r w'] eqn:Hrun.
-  destruct (rollback_nil_core base backup Vb Vk tnb tnk accb acck rhb rhk whb whk B0 tagb tagk
-              HLb HLk HFb HFk Hlinks Hsmall HwfB (w_faults w) (unfault w) HI w r w' Hc eq_refl eq_refl Hrun)
+  destruct (rollback_nil_core base backup Vb Vk tnb tnk accb acck rhb rhk whb whk hid anc B0 tagb tagk
+              HLb HLk HFb HFk Hlinks Hsmall HwfB Hloc (w_faults w) (unfault w) HI w r w' Hc eq_refl eq_refl Hrun)
     as (Hn & Hc' & Hnil).
   exists r, w'. split; [reflexivity | split; [exact Hn | split; [exact Hc' | split; [exact Hnil |]]]].
   intros Hs.
   destruct (sclean_rollback base backup Vb Vk tagb tagk rhb rhk whb whk HFb HFk w Hc Hs)
     as (rq & w1 & Hrunq & _ & _ & Hrunf & _).
-  destruct (rollback_spec base backup Vb Vk tnb tnk accb acck rhb rhk whb whk B0
-              HLb HLk Hlinks Hsmall HwfB (unfault w) HI) as (wq' & Hrb & _).
+  destruct (rollback_spec base backup Vb Vk tnb tnk accb acck rhb rhk whb whk hid anc B0
+              HLb HLk Hlinks Hsmall HwfB Hloc (unfault w) HI) as (wq' & Hrb & _).
   rewrite Hrb in Hrunq. injection Hrunq as <- _. rewrite Hrun in Hrunf. injection Hrunf as -> _. reflexivity.
 Qed.
 
 Theorem rollback_nil_restored :
-  forall base backup Vb Vk tnb tnk accb acck rhb rhk whb whk B0 tagb tagk,
-  rollback_nil_stmt base backup Vb Vk tnb tnk accb acck rhb rhk whb whk B0 tagb tagk.
+  forall base backup Vb Vk tnb tnk accb acck rhb rhk whb whk hid anc B0 tagb tagk,
+  rollback_nil_stmt base backup Vb Vk tnb tnk accb acck rhb rhk whb whk hid anc B0 tagb tagk.
 Proof.
-  intros base backup Vb Vk tnb tnk accb acck rhb rhk whb whk B0 tagb tagk.
-  unfold rollback_nil_stmt. cbv zeta. intros HLb HLk HFb HFk Hlinks Hsmall HwfB w r w' [Hc HI] Hrun.
-  destruct (rollback_nil_core base backup Vb Vk tnb tnk accb acck rhb rhk whb whk B0 tagb tagk
-              HLb HLk HFb HFk Hlinks Hsmall HwfB (w_faults w) (unfault w) HI w r w' Hc eq_refl eq_refl Hrun)
+  intros base backup Vb Vk tnb tnk accb acck rhb rhk whb whk hid anc B0 tagb tagk.
+  unfold rollback_nil_stmt. cbv zeta. intros HLb HLk HFb HFk Hlinks Hsmall HwfB Hloc w r w' [Hc HI] Hrun.
+  destruct (rollback_nil_core base backup Vb Vk tnb tnk accb acck rhb rhk whb whk hid anc B0 tagb tagk
+              HLb HLk HFb HFk Hlinks Hsmall HwfB Hloc (w_faults w) (unfault w) HI w r w' Hc eq_refl eq_refl Hrun)
     as (Hn & _ & Hnil).
   split; [exact Hn | exact Hnil].
 Qed.
 
 Theorem run_fault :
-  forall base backup Vb Vk tnb tnk accb acck rhb rhk whb whk B0 tagb tagk,
-  run_fault_stmt base backup Vb Vk tnb tnk accb acck rhb rhk whb whk B0 tagb tagk.
+  forall base backup Vb Vk tnb tnk accb acck rhb rhk whb whk hid anc B0 tagb tagk,
+  run_fault_stmt base backup Vb Vk tnb tnk accb acck rhb rhk whb whk hid anc B0 tagb tagk.
 Proof.
-  intros base backup Vb Vk tnb tnk accb acck rhb rhk whb whk B0 tagb tagk.
+  intros base backup Vb Vk tnb tnk accb acck rhb rhk whb whk hid anc B0 tagb tagk.
   unfold run_fault_stmt. cbv zeta. intros HLb HLb2 HLk HFb HFk Hsmall w0 ops w (Hc0 & Hsingle0 & Hinit) Hrun.
   pose proof Hinit as (_ & _ & _ & HwfB & Hlinks & _ & _).
   pose proof (initial_inv_spec Vb Vk tnb tnk accb acck B0 (unfault w0) Hinit) as HI0.
-  destruct (good_run_fault_inv base backup Vb Vk tnb tnk accb acck rhb rhk whb whk B0 tagb tagk
+  pose proof (initial_loc_ok base Vb Vk tnb tnk accb acck rhb whb hid anc B0 HLb (unfault w0) Hinit) as Hloc.
+  destruct (good_run_fault_inv base backup Vb Vk tnb tnk accb acck rhb rhk whb whk hid anc B0 tagb tagk
               HLb HLb2 HLk HFb HFk Hlinks Hsmall HwfB w0 ops w Hrun (conj Hc0 HI0) Hsingle0)
     as (HI & Hf & _).
   split; [exact HI |]. split; [exact (InvF_recoverable base backup Vb Vk B0 tagb tagk rhb rhk whb whk HFb HFk w HI) |].
-  destruct (rollback_fault base backup Vb Vk tnb tnk accb acck rhb rhk whb whk B0 tagb tagk
-              HLb HLk HFb HFk Hlinks Hsmall HwfB w HI ltac:(rewrite Hf; exact Hsingle0))
+  destruct (rollback_fault base backup Vb Vk tnb tnk accb acck rhb rhk whb whk hid anc B0 tagb tagk
+              HLb HLk HFb HFk Hlinks Hsmall HwfB Hloc w HI ltac:(rewrite Hf; exact Hsingle0))
     as (r & w' & Hrb & Hn & _ & Hnil & Hsp).
   exists r, w'. split; [exact Hrb | split; [exact Hn | split; [exact Hnil | exact Hsp]]].
 Qed.
